@@ -236,7 +236,11 @@ func runScript(sc *script, sum *summary) (clean bool) {
 			var err error
 			switch o.Op {
 			case "write":
-				n, err = c.Write(hlib.Payload(sid, 0, o.N))
+				pb := hlib.Payload(sid, 0, o.N)
+				n, err = c.Write(pb)
+				for i := range pb {
+					pb[i] = 0xEE // the caller reuses its buffer after the call
+				}
 			case "writev":
 				var bs [][]byte
 				off := 0
@@ -245,6 +249,11 @@ func runScript(sc *script, sum *summary) (clean bool) {
 					off += x
 				}
 				n, err = c.Writev(bs)
+				for _, b := range bs {
+					for i := range b {
+						b[i] = 0xEE
+					}
+				}
 			case "sendfile":
 				f, ferr := os.CreateTemp(tmpdir, "sf")
 				if ferr != nil {
